@@ -72,6 +72,24 @@ def realise(n, edges, kind, rng, kinds=None):
             text.append("FUNCTION_BLOCK Fb%d\n%sEND_FUNCTION_BLOCK\n" % (i, body))
             decls.append("P %d %s" % (i + 1, ",".join(str(j + 1) for j in succ[i])) if succ[i] else "P %d" % (i + 1))
         return "\n".join(text), decls
+    if kind == "fbstruct":
+        # a containment graph that crosses between function blocks and structures: kinds[i] says what node i is
+        tl = []
+        for i in range(n):
+            if kinds[i] == "fb":
+                vs = "".join("  v%d_%d : %s;\n" % (i, k, rc(rng, "Nd%d" % j)) for k, j in enumerate(succ[i]))
+                text.append("FUNCTION_BLOCK Nd%d\n%sEND_FUNCTION_BLOCK\n" % (i, ("VAR\n" + vs + "END_VAR\n") if vs else ""))
+                decls.append("P %d %s" % (i + 1, ",".join(str(j + 1) for j in succ[i])) if succ[i] else "P %d" % (i + 1))
+            elif not succ[i]:
+                tl.append("  Nd%d : (A%d, B%d);" % (i, i, i))
+                decls.append("L %d" % (i + 1))
+            else:
+                els = " ".join("e%d : %s;" % (k2, rc(rng, "Nd%d" % j)) for k2, j in enumerate(succ[i]))
+                tl.append("  Nd%d : STRUCT %s END_STRUCT;" % (i, els))
+                decls.append("S %d %s" % (i + 1, ",".join(str(j + 1) for j in succ[i])))
+        if tl:
+            text.insert(0, "TYPE\n" + "\n".join(tl) + "\nEND_TYPE\n")
+        return "\n".join(text), decls
     tl = ["TYPE"]
     for i in range(n):
         k = kinds[i] if kinds else kind
@@ -142,11 +160,15 @@ def search(run, info):
             kinds.append("alias")
         if n <= 4 or fam == "random":
             kinds.append("mixed")
+            kinds.append("fbstruct")
         for kind in kinds:
             case_rng = rng if rng.random() < 0.5 else None
             if kind == "mixed":
                 ks = [rng.choice(["alias", "struct"]) for _ in range(n)]
                 text, decls = realise(n, es, "mixed", case_rng, ks)
+            elif kind == "fbstruct":
+                ks = [rng.choice(["fb", "struct"]) for _ in range(n)]
+                text, decls = realise(n, es, "fbstruct", case_rng, ks)
             else:
                 text, decls = realise(n, es, kind, case_rng)
             meta.append((n, es, fam, kind, cyc, text, decls))
@@ -191,7 +213,8 @@ def search(run, info):
             run.sample({"nodes": n, "edges": es[:10], "realisation": kind, "cyclic": cyc, "P0010": reported})
     return {"coverage": {
         "rule": "every digraph on 1-3 nodes (self-loops included) and %s 4-node digraphs, each realised as a function-block instance "
-                "graph, a structure graph, an alias graph (when every out-degree is <= 1) and a mixed alias/structure graph, "
+                "graph, a structure graph, an alias graph (when every out-degree is <= 1), a mixed alias/structure graph and a "
+                "containment graph whose nodes are function blocks and structures at random, "
                 "references spelled in random letter case for half of them; random graphs with 5-12 nodes; chains of 50/200, "
                 "complete DAGs, diamonds, each also with one closing edge; non-trivial = at least one edge, distinct by "
                 "(realisation, nodes, edge set)" % ("all 65536" if run.tier == "thorough" else "400 sampled"),
